@@ -408,6 +408,24 @@ class CFG:
                 return n
         return cands[0] if cands else None
 
+    def always_passes(self, stmt: ast.AST, exits: Optional[Iterable[int]] = None) -> bool:
+        """Every path from entry to a (normal) exit executes `stmt` (any finally-copy of it counts)."""
+        ex = set(exits) if exits is not None else {self.exit}
+        targets = {n.id for n in self.nodes if n.ast is stmt or (n.ast is not None and n.kind != "branch" and any(x is stmt for part in own_exprs(n.ast) for x in _walk_no_defs(part)))}
+        if not targets:
+            return False
+        seen = {self.entry}
+        todo = [self.entry]
+        while todo:
+            x = todo.pop()
+            if x in ex:
+                return False
+            for m, _ in self.succ[x]:
+                if m not in seen and m not in targets:
+                    seen.add(m)
+                    todo.append(m)
+        return True
+
     def dominated_by(self, n: int, d: int) -> bool:
         return d in self.dominators().get(n, set())
 
